@@ -476,6 +476,7 @@ pub fn net_case(rng: &mut Rng, thorough: bool) -> String {
     // (rows with identical weights and different biases, or zero weights): `compose::<true>` prunes at the root
     let head_only = rng.chance(1, 8);
     // precondition
+    let mut pre_desc = String::new();
     let pre: Option<(Polytope, AffTree<2>)> = if head_only {
         None
     } else if rng.chance(1, 2) {
@@ -497,10 +498,16 @@ pub fn net_case(rng: &mut Rng, thorough: bool) -> String {
             _ => rand_poly(rng, rows, n),
         };
         // without else-branch (partial) or with one (total: infeasible tails can be removed, the tree shrinks)
+        // the polytope itself is handed to the judge: C01 speaks about the precondition, not about the tree made of it
+        pre_desc.push_str(" poly ");
+        enc::poly(&mut pre_desc, &p);
         let t = if rng.chance(1, 2) {
+            pre_desc.push_str(" none");
             AffTree::<2>::from_poly(p.clone(), AffFunc::identity(n), None).unwrap()
         } else {
             let other = rand_aff(rng, n, n);
+            pre_desc.push_str(" some ");
+            enc::aff(&mut pre_desc, &other);
             AffTree::<2>::from_poly(p.clone(), AffFunc::identity(n), Some(&other)).unwrap()
         };
         Some((p, t))
@@ -578,6 +585,7 @@ pub fn net_case(rng: &mut Rng, thorough: bool) -> String {
     let mut t: AffTree<2> = match &pre {
         Some((_, tree)) => {
             out.push_str("precondition");
+            out.push_str(&pre_desc);
             tree.clone()
         }
         None => {
@@ -590,6 +598,12 @@ pub fn net_case(rng: &mut Rng, thorough: bool) -> String {
     let pts: Vec<Array1<f64>> = {
         let mut p = rand_points(rng, &t, 6);
         p.extend((0..8).map(|_| rand_int_vec(rng, n)));
+        // inputs on, and one unit in the last place off, the activation breakpoints and head ties of the network: the
+        // hyperplanes of the distilled tree itself
+        let pre_probe = pre.as_ref().map(|(_, t)| t.clone());
+        if let Ok(probe) = catch_unwind(AssertUnwindSafe(|| afftree_from_layers(n, &layers, pre_probe))) {
+            p.extend(rand_points(rng, &probe, 5));
+        }
         p
     };
     write!(out, " {}", pts.len()).unwrap();
